@@ -39,6 +39,9 @@ def cases(tier, seed):
                                            if th else [])
     for n, s in big:
         out.append({"kind": "table", "n": n, "s": s})
+    # one very long single-unit table: costs beyond 2**31 (narrow integer
+    # arithmetic in a vectorised or compiled column shows up here)
+    out.append({"kind": "table", "n": 100000 if th else 70000, "s": 1})
     for _ in range(40 if th else 6):
         out.append({"kind": "table", "n": rng.randint(20, 260 if th else 110),
                     "s": rng.randint(1, 12)})
